@@ -1,3 +1,3 @@
 From Coq Require Import ExtrOcamlBasic ZArith.
-From CppUVerif Require Import C12_Model C12_Apply.
-Extraction "c12_model.ml" C12_Apply.xrun C12_Apply.xspec C12_Model.valid C12_Model.render BinInt.Z.of_N.
+From CppUVerif Require Import C12_Model C12_Apply C12_Seq.
+Extraction "c12_model.ml" C12_Seq.yrun C12_Seq.yspec C12_Seq.yvalid C12_Apply.xrun C12_Apply.xspec C12_Model.valid C12_Model.render BinInt.Z.of_N.
